@@ -58,7 +58,8 @@ Definition tstep (v : variant) (c : cfg) (n : node) (t : thr) : node * list tran
       if negb (tracked c k) then (n, [], None) else
       let n1 := track_update v n k d in
       let delta := if_delta c n1 in
-      if fix_ia v then (adjust_priority c n1 delta, [], if d then Some TIfChk else None)
+      if fix_ia v || (c_coalesce c && (n_cnt n1 =? n_cnt n))
+      then (adjust_or_skip c n n1 delta, [], if d then Some TIfChk else None)
       else (n1, [], Some (TIfAdj d delta))
   | TIfAdj d delta => (adjust_priority c n delta, [], if d then Some TIfChk else None)
   | TIfChk => (n, [], if sst_eqb (n_st n) StandbyAlone then Some TIfPromote else None)
